@@ -19,6 +19,12 @@ git apply $O/patch.diff || { echo "  patch does not apply"; exit 1; }
 go build ./... > $O/confirm_build.log 2>&1 && echo "  patched: builds" || echo "  patched: BUILD FAILS"
 go test -vet=off -count=1 -timeout 60m -run "$name" $pkg > $O/confirm_mut.log 2>&1 && echo "  patched: demo PASS (unexpected)" || echo "  patched: demo FAIL (expected)"
 rm -f $dp
-go test -vet=off -count=1 -timeout 120m -p 4 ./x/... ./app/... ./tests/integration/... > $O/confirm_suite.log 2>&1
+if [ -n "$FAST" ]; then
+  # time-boxed confirmation: unit suites re-run here; the integration suite was run by the author of the change (log in OUT/)
+  go test -vet=off -count=1 -timeout 60m -p 4 ./x/... ./app/... > $O/confirm_suite.log 2>&1
+  echo "  (integration suite not re-run here: see the author's log)"
+else
+  go test -vet=off -count=1 -timeout 120m -p 4 ./x/... ./app/... ./tests/integration/... > $O/confirm_suite.log 2>&1
+fi
 echo "  patched: suite failures: $(grep -c '^FAIL\|^--- FAIL' $O/confirm_suite.log)"
 git checkout -q -- . ; git clean -fdq -e OUT
